@@ -172,6 +172,22 @@ CLAIMED = {
              "segmentation independent (exercised by the end-to-end run).",
         technique="Coq proof (invariant over chunk refills, induction) + differential correspondence on operation "
                   "sequences + end-to-end delivery differential"),
+    "C06": dict(
+        category="proof",
+        text="Theorems (all argument values): determineEncoding's choice is the first of BOM, override, transport, "
+             "meta prescan, parent (unless UTF-16), likely, default, windows-1252 that yields an encoding (stated "
+             "against an independent first_some specification; the order of the sources is read from the AST on every "
+             "run), it is certain exactly for the first three, a certain encoding is independent of document content, "
+             "a declared UTF-16 means UTF-8, only the first 1024 bytes are prescanned, every label of the table "
+             "resolves. PARTIAL: the prescan mini-parser (EncodingBytes/EncodingParser/ContentAttrParser with "
+             "StopIteration as an outcome) is transcribed and tied to the code by exact-agreement correspondence "
+             "(4000 byte strings/run); its agreement with the standard's prescan is decided by search against my "
+             "transcription of the standard (six recorded deviations = known finding); the late-meta reparse and the "
+             "decoders are not modelled (exercised end-to-end by C05/C15 runs).",
+        design_ref="DESIGN.md 3 C06",
+        note="webencodings.LABELS is an environment fact; chardet is absent (branch unreachable here).",
+        technique="Coq proof (case analysis over the precedence cascade) + translated order/table facts + "
+                  "differential correspondence of the prescan transcription + search against the standard's prescan"),
 }
 
 PENDING_REASON = "not yet built in this round (planned: Coq model + theorems per DESIGN.md section 3); no check is registered, so nothing is claimed"
